@@ -469,6 +469,24 @@ class Path:
         return None
 
 
+def pure_functions(module):
+    """Defined functions of the module that write no memory and call nothing (effect-free for the store map)."""
+    cache = getattr(module, "_pure_cache", None)
+    if cache is not None:
+        return cache
+    out = {}
+    for f in module.defined_functions():
+        pure = True
+        for i in f.real_insts():
+            if i.op in ("store", "atomicrmw", "cmpxchg", "fence") or (i.op == "call" and not (i.callee or "").startswith("llvm.")):
+                pure = False
+                break
+        if pure:
+            out[f.name] = []
+    module._pure_cache = out
+    return out
+
+
 def enumerate_paths(fn, module, loop_bound=1, max_paths=MAX_PATHS, call_effects=None):
     """All paths from entry to a return/unreachable, each back edge at most loop_bound times.
 
@@ -476,6 +494,9 @@ def enumerate_paths(fn, module, loop_bound=1, max_paths=MAX_PATHS, call_effects=
     """
     out = []
     dom = fn.dom()
+    eff = dict(pure_functions(module))
+    eff.update(call_effects or {})
+    call_effects = eff
 
     def is_back(b, s):
         return s.name in dom[b.name]
